@@ -12,6 +12,7 @@ import (
 
 type fnInfo struct {
 	seen bool
+	live *liveInfo
 	idx  map[ssa.Value]int
 	n    int
 	size int
@@ -33,6 +34,9 @@ type frame struct {
 	iter    map[*ssa.BasicBlock]int
 	results Value
 	isInit  bool
+	caller  *frame
+	pcBlock int
+	pcIdx   int
 }
 
 func (e *Exec) info(fn *ssa.Function) *fnInfo {
@@ -142,7 +146,7 @@ func (e *Exec) callFunction(fn *ssa.Function, args []Value, bind []Value, deferO
 		fi.seen = true
 		e.St.Funcs[e.fnName(fn)] = fi.size
 	}
-	fr := &frame{fn: fn, info: fi, regs: make([]Value, fi.n), deferOf: deferOf}
+	fr := &frame{fn: fn, info: fi, regs: make([]Value, fi.n), deferOf: deferOf, caller: e.curFrame}
 	if len(args) != len(fn.Params) {
 		panic(fmt.Sprintf("vx: arity mismatch calling %s: %d args, %d params", fn, len(args), len(fn.Params)))
 	}
@@ -263,7 +267,9 @@ func (e *Exec) execBlock(fr *frame, blk, prev *ssa.BasicBlock) (next *ssa.BasicB
 			e.set(fr, instrs[k].(*ssa.Phi), vals[k])
 		}
 	}
+	fr.pcBlock = blk.Index
 	for ; i < len(instrs); i++ {
+		fr.pcIdx = i
 		e.steps++
 		if e.steps > e.Cfg.MaxSteps {
 			panic(pathEnd{"limit", fmt.Sprintf("step bound %d exceeded", e.Cfg.MaxSteps)})
@@ -326,6 +332,17 @@ func (e *Exec) callArgs(fr *frame, c *ssa.CallCommon) (fn Value, args []Value) {
 		}
 		if iv.T == nil {
 			e.goPanicRuntime("invalid memory address or nil pointer dereference")
+		}
+		if at, ok := iv.V.(AbsTok); ok && e.pr != nil {
+			// the task body is the environment: Start() on a token whose identity is state dependent
+			if at.Occ != e.pr.occ[at.Reg] {
+				e.unsupported("token register " + at.Reg + " used after it was overwritten")
+			}
+			if c.Method.Name() != "Start" {
+				e.unsupported("method " + c.Method.Name() + " on an abstract token")
+			}
+			reg := ValX{Kind: "reg", Reg: at.Reg}
+			return Closure{Nat: &Native{Name: "task.Start", F: func(e *Exec, args []Value) Value { e.startEvent(reg); return nil }}}, nil
 		}
 		m := e.lookupMethod(iv.T, c.Method)
 		args = make([]Value, 0, len(c.Args)+1)
@@ -445,7 +462,16 @@ func (e *Exec) execInstr(fr *frame, instr ssa.Instruction) {
 		e.set(fr, in, e.lookup(in, e.get(fr, in.X), e.get(fr, in.Index)))
 	case *ssa.MakeChan:
 		e.objSeq++
-		e.set(fr, in, ChanV{&ChanObj{ID: e.objSeq, Cap: e.concInt(e.get(fr, in.Size))}})
+		ek := "int"
+		switch u := in.Type().Underlying().(*types.Chan).Elem().Underlying().(type) {
+		case *types.Interface:
+			ek = "tok"
+		case *types.Struct:
+			if u.NumFields() == 0 {
+				ek = "unit"
+			}
+		}
+		e.set(fr, in, ChanV{&ChanObj{ID: e.objSeq, Cap: e.concInt(e.get(fr, in.Size)), Epoch: e.epoch, ElemKind: ek, Name: in.Parent().Name() + ":" + in.Name()}})
 	case *ssa.MakeClosure:
 		b := make([]Value, len(in.Bindings))
 		for i, x := range in.Bindings {
@@ -480,9 +506,17 @@ func (e *Exec) execInstr(fr *frame, instr ssa.Instruction) {
 	case *ssa.Range:
 		e.set(fr, in, e.rangeIter(e.get(fr, in.X)))
 	case *ssa.Select:
-		e.set(fr, in, e.selectStmt(fr, in))
+		if e.pr != nil {
+			e.set(fr, in, e.procSelect(fr, in))
+		} else {
+			e.set(fr, in, e.selectStmt(fr, in))
+		}
 	case *ssa.Send:
-		e.chanSend(e.get(fr, in.Chan), e.get(fr, in.X))
+		if e.pr != nil {
+			e.procSend(e.get(fr, in.Chan), e.get(fr, in.X))
+		} else {
+			e.chanSend(e.get(fr, in.Chan), e.get(fr, in.X))
+		}
 	case *ssa.Slice:
 		e.set(fr, in, e.sliceOp(fr, in))
 	case *ssa.Store:
@@ -531,6 +565,9 @@ func (e *Exec) unop(fr *frame, in *ssa.UnOp) Value {
 		}
 		return e.fromTerm(e.TB.BNot(v.T))
 	case token.ARROW:
+		if e.pr != nil {
+			return e.procRecv(x, in.CommaOk, in.Type(), in.X.Type().Underlying().(*types.Chan).Elem())
+		}
 		return e.chanRecv(x, in.CommaOk, in.Type())
 	}
 	e.unsupported("unop " + in.Op.String())
@@ -728,6 +765,16 @@ func (e *Exec) implements(t types.Type, it *types.Interface) bool {
 }
 
 func (e *Exec) goStmt(fr *frame, in *ssa.Go) {
+	if e.collectGo {
+		fn, args := e.callArgs(fr, &in.Call)
+		name := "go"
+		if c, ok := fn.(Closure); ok && c.Fn != nil {
+			name = c.Fn.Name()
+		}
+		name = fmt.Sprintf("%s#%d", name, len(e.procs))
+		e.procs = append(e.procs, procSpec{name: name, fn: fn, args: args})
+		return
+	}
 	e.unsupported("go statement (Engine 1 is sequential)")
 }
 
